@@ -3,11 +3,15 @@ FAMILY = "docvec"
 RUNNER = ("Corr.Docvec_run", "run_docvec")
 
 EXPECTED = {0: [0x421C7EC3, 0x000B8ED1], 1: [0x1C31EFEB, 0x87B430DA]}
-KINDS = [0]
+KINDS = [0, 1]
+
+
+_next = [0]
 
 
 def gen_doc(rng):
-    return [rng.choice(KINDS)]
+    _next[0] += 1
+    return [KINDS[_next[0] % len(KINDS)]]
 
 
 def oracle_C06(inp, out):
